@@ -254,3 +254,160 @@ func (m *Model) RunEOFToken(s *Sink, rule string) {
 	}
 	_ = token.ADD
 }
+
+// RunNilErr: every `return nil` of a parse function is preceded, on all paths, by a recorded error
+// (parser.newError, the failure edge of an expect-like call, or the nil result of a parse function
+// that itself satisfies this rule). parseStr/parseProgram hand out a program only when no error was recorded.
+func (m *Model) RunNilErr(s *Sink, rule string) {
+	var parFns []*ssa.Function
+	for _, fn := range m.ModFns {
+		if fn.Blocks != nil && shortPkg(fnPkgPath(fn)) == "parser" {
+			parFns = append(parFns, fn)
+		}
+	}
+	newErr := m.Method("parser", "Parser", "newError")
+	if newErr == nil {
+		s.Undecided(rule, "parser.newError", "-", "not found")
+		return
+	}
+	els := m.findExpectLikes(parFns)
+	// candidates: parse functions that can return nil
+	good := map[*ssa.Function]bool{}
+	var cands []*ssa.Function
+	for _, fn := range parFns {
+		if !strings.HasPrefix(fn.Name(), "parse") && fn.Name() != "ParseProgram" {
+			continue
+		}
+		if fn.Name() == "parseStatement" {
+			continue // its nil means "no statement starts here", the token is skipped by the caller
+		}
+		if fn.Signature.Results().Len() != 1 {
+			continue
+		}
+		switch fn.Signature.Results().At(0).Type().Underlying().(type) {
+		case *types.Pointer, *types.Interface:
+		default:
+			continue // a nil slice is the empty list, not a failure signal
+		}
+		hasNil := false
+		for _, b := range fn.Blocks {
+			if ret, ok := b.Instrs[len(b.Instrs)-1].(*ssa.Return); ok && len(ret.Results) == 1 && isNilConst(ret.Results[0]) {
+				hasNil = true
+			}
+		}
+		if hasNil {
+			cands = append(cands, fn)
+			good[fn] = true // optimistic; greatest fixpoint
+		}
+	}
+	mk := func() *consumerInfo {
+		ci := m.newPassInfo(
+			func(c ssa.CallInstruction) bool { return c.Common().StaticCallee() == newErr },
+			func(*ssa.Call) bool { return false }, parFns, nil)
+		ci.failPoint = func(c *ssa.Call) bool {
+			sc := c.Call.StaticCallee()
+			return sc != nil && (els[sc] != nil || good[sc])
+		}
+		return ci
+	}
+	escapes := func(fn *ssa.Function, ci *consumerInfo) (bool, string) {
+		for _, b := range fn.Blocks {
+			ret, ok := b.Instrs[len(b.Instrs)-1].(*ssa.Return)
+			if !ok || len(ret.Results) != 1 || !isNilConst(ret.Results[0]) {
+				continue
+			}
+			target := b
+			if ci.pathAvoiding(fn, fn.Blocks[0], 0, func(x *ssa.BasicBlock) bool { return x == target && !ci.blockConsumes(x, 0) }, nil) {
+				return true, m.InstrPos(ret)
+			}
+		}
+		return false, ""
+	}
+	for changed := true; changed; {
+		changed = false
+		ci := mk()
+		for _, fn := range cands {
+			if !good[fn] {
+				continue
+			}
+			if bad, _ := escapes(fn, ci); bad {
+				good[fn] = false
+				changed = true
+			}
+		}
+	}
+	ci := mk()
+	sort.Slice(cands, func(i, j int) bool { return fnKey(cands[i]) < fnKey(cands[j]) })
+	for _, fn := range cands {
+		key := fnKey(fn) + "|a nil result means an error was recorded"
+		if good[fn] {
+			s.OK(rule, key, m.Pos(fn.Pos()), "every path to `return nil` passes newError, the failure edge of an expect function, or the nil result of a parse function with the same guarantee")
+		} else {
+			_, pos := escapes(fn, ci)
+			s.Violation(rule, key, pos, "%s can return nil on a path that records no error: the caller treats nil as \"already reported\", so the input is accepted with a piece missing (or a nil node is evaluated later)", fnKey(fn))
+		}
+	}
+	if len(cands) < 15 {
+		s.Undecided(rule, "parse functions returning nil", "-", "expected at least 15 parse functions with a nil return, found %d", len(cands))
+	}
+	// every caller of ParseProgram (parseStr, parseProgram today): a program is handed out only when no error was recorded
+	pp := m.Method("parser", "Parser", "ParseProgram")
+	var callers []*ssa.Function
+	for _, fn := range m.ModFns {
+		if fn.Blocks == nil || isUserPkg(fnPkgPath(fn)) || shortPkg(fnPkgPath(fn)) == "parser" {
+			continue
+		}
+		for _, b := range fn.Blocks {
+			for _, in := range b.Instrs {
+				if c, ok := in.(*ssa.Call); ok && pp != nil && c.Call.StaticCallee() == pp {
+					callers = append(callers, fn)
+				}
+			}
+		}
+	}
+	if len(callers) < 2 {
+		s.Undecided(rule, "callers of ParseProgram", "-", "expected at least 2 callers of ParseProgram outside the parser, found %d", len(callers))
+	}
+	for _, fn := range callers {
+		key := fnKey(fn) + "|program or errors, never both"
+		ok := true
+		n := 0
+		for _, b := range fn.Blocks {
+			ret, isRet := b.Instrs[len(b.Instrs)-1].(*ssa.Return)
+			if !isRet {
+				continue
+			}
+			if c, isC := ret.Results[0].(*ssa.Call); !isC || c.Call.StaticCallee() != pp {
+				continue
+			}
+			n++
+			// a program is returned: must be dominated by "no errors" (HasErrors() false, or len(Errors()) == 0)
+			clean := false
+			a := m.NewArith(fn)
+			for _, f := range expandFacts(factsAt(b)) {
+				if c, isC := f.Cond.(*ssa.Call); isC && !f.Holds && c.Call.StaticCallee() != nil && c.Call.StaticCallee().Name() == "HasErrors" {
+					clean = true
+				}
+			}
+			if !clean {
+				for _, bb := range fn.Blocks {
+					for _, in := range bb.Instrs {
+						if c, isC := in.(*ssa.Call); isC && c.Call.StaticCallee() != nil && c.Call.StaticCallee().Name() == "Errors" {
+							if a.ProveValLE(a.lenLin(c, 0), 0, pointOf(ret)) {
+								clean = true
+							}
+						}
+					}
+				}
+			}
+			if !clean {
+				ok = false
+			}
+		}
+		if ok && n > 0 {
+			s.OK(rule, key, m.Pos(fn.Pos()), "a program is returned only under \"the parser recorded no error\"")
+		} else {
+			s.Violation(rule, key, m.Pos(fn.Pos()), "%s can hand out a program although the parser recorded errors (or never hands one out)", fnKey(fn))
+		}
+	}
+}
